@@ -317,6 +317,33 @@ impl<'ast> Visit<'ast> for LoopFinder {
                         }
                     }
                 }
+                // D22: X.iter().filter(|P| C).map(|Q| E).collect()
+                if fm.method == "map" && fm.args.len() == 1 {
+                    if let (syn::Expr::Closure(cm), syn::Expr::MethodCall(fl)) = (&fm.args[0], &*fm.receiver) {
+                        if fl.method == "filter" && fl.args.len() == 1 {
+                            if let (syn::Expr::Closure(cf), syn::Expr::MethodCall(it)) = (&fl.args[0], &*fl.receiver) {
+                                if it.method == "iter" && it.args.is_empty() && cm.inputs.len() == 1 && cf.inputs.len() == 1
+                                    && matches!(cm.inputs[0], syn::Pat::Ident(_)) && matches!(cf.inputs[0], syn::Pat::Ident(_)) {
+                                    let mut ef = EscapeFinder::default();
+                                    ef.visit_expr(&cm.body);
+                                    ef.visit_expr(&cf.body);
+                                    if ef.escapes == 0 {
+                                        let call = e.span().byte_range();
+                                        let recv = it.receiver.span().byte_range();
+                                        let fp = cf.inputs[0].span().byte_range();
+                                        let fb = cf.body.span().byte_range();
+                                        let mp = cm.inputs[0].span().byte_range();
+                                        let mb = cm.body.span().byte_range();
+                                        self.vd.push(format!(
+                                            "{{\"rule\":\"D22\",\"call\":[{},{}],\"recv\":[{},{}],\"fpat\":[{},{}],\"fbody\":[{},{}],\"pat\":[{},{}],\"body\":[{},{}]}}",
+                                            call.start, call.end, recv.start, recv.end, fp.start, fp.end, fb.start, fb.end, mp.start, mp.end, mb.start, mb.end
+                                        ));
+                                    }
+                                }
+                            }
+                        }
+                    }
+                }
                 if fm.method == "map" && fm.args.len() == 1 {
                     if let (syn::Expr::Closure(c), syn::Expr::MethodCall(it)) = (&fm.args[0], &*fm.receiver) {
                         if it.method == "iter" && it.args.is_empty() && c.inputs.len() == 1 && matches!(c.inputs[0], syn::Pat::Ident(_) | syn::Pat::Reference(_)) {
